@@ -829,7 +829,9 @@ class Sim:
             tgt = self.expand(st, self.read(st, r.ptr))
             if isinstance(tgt, Array):
                 return Const(len(tgt.elems), prim("usize"))
-        raise Unsupported("PtrMetadata of %r" % (r,))
+            if isinstance(tgt, Opaque) and tgt.kind == "List":
+                return Const(len(tgt.data[0]), prim("usize"))      # &[T] obtained by dereferencing a Vec / VecDeque-backed list
+        raise Unsupported("PtrMetadata of %r (-> %r)" % (r, self.read(st, r.ptr) if isinstance(r, Ref) else None))
 
     # ------------------------------------------------------------------ frames / calls
     def push_frame(self, st, fn, body, gargs, args, dest, ret_bb, tag=None):
